@@ -379,6 +379,13 @@ func (e dispatcherCompleteEvent) apply(s *state) {
 		s.log("dispatcher", e.dispatcher).Error("Completed dispatcher not found")
 		return
 	}
+	if ctrl.dispatcher != e.dispatcher {
+		// The notice comes from a dispatcher which has been removed since, and the
+		// torrent has been added again: the new download is not complete because an
+		// earlier one was.
+		s.log("dispatcher", e.dispatcher).Info("Ignoring completion of a removed dispatcher")
+		return
+	}
 	for _, errc := range ctrl.errors {
 		errc <- nil
 	}
